@@ -77,9 +77,17 @@ pub struct BuildOpts {
     /// encoded under definition 0, so that they decode once that template is delivered
     /// (C07)
     pub withhold: Option<(Proto, u8)>,
+    /// upper bounds (bytes) for the body of one data set and for the sets of one packet;
+    /// nothing is emitted beyond them, so packets stay below the datagram limit
+    pub set_budget: usize,
+    pub pkt_budget: usize,
 }
 
 impl BuildOpts {
+    /// the same options with budgets at the datagram limit
+    pub const fn big(self) -> BuildOpts {
+        BuildOpts { set_budget: 64000, pkt_budget: 64000, ..self }
+    }
     pub const STRICT: BuildOpts = BuildOpts {
         auto_define: true,
         multi_tpl_ipfix: false,
@@ -89,6 +97,8 @@ impl BuildOpts {
         count_by_flowsets: false,
         proto_named: false,
         withhold: None,
+        set_budget: SET_BODY_BUDGET,
+        pkt_budget: PKT_BUDGET,
     };
     pub const WIDE: BuildOpts = BuildOpts {
         auto_define: true,
@@ -99,6 +109,8 @@ impl BuildOpts {
         count_by_flowsets: false,
         proto_named: false,
         withhold: None,
+        set_budget: SET_BODY_BUDGET,
+        pkt_budget: PKT_BUDGET,
     };
 }
 
@@ -124,7 +136,7 @@ impl<'a> Ent<'a> {
     }
 }
 
-const FLOATS: [u64; 8] = [
+const FLOATS: [u64; 16] = [
     0x7ff8000000000000, // NaN
     0x7ff0000000000000, // +inf
     0xfff0000000000000, // -inf
@@ -133,6 +145,14 @@ const FLOATS: [u64; 8] = [
     0x3ff0000000000000, // 1.0
     0x405edd2f1a9fbe77, // 123.456
     0xffffffffffffffff, // NaN with payload
+    0x3fb99999a0000000, // 0.1f32 widened (0.10000000149011612)
+    0x3fb999999999999a, // 0.1
+    0x3f50624de0000000, // 0.001f32 widened
+    0x47efffffe0000000, // f32::MAX widened
+    0x7fefffffffffffff, // f64::MAX
+    0x4340000000000001, // 2^53 + 2
+    0x44b52d02c7e14af6, // 1e23
+    0x3810000000000000, // f32::MIN_POSITIVE widened
 ];
 
 fn utf8_fill(n: usize, e: &mut Ent) -> Vec<u8> {
@@ -165,7 +185,12 @@ pub fn gen_value(dt: &FieldDataType, n: usize, e: &mut Ent, utf8_only: bool) -> 
     if *dt == FieldDataType::Float64 && n == 8 {
         let s = e.next();
         if s < 160 {
-            return FLOATS[(s % 8) as usize].to_be_bytes().to_vec();
+            return FLOATS[(s % 16) as usize].to_be_bytes().to_vec();
+        }
+        if s < 200 {
+            // a single-precision value widened to 64 bits (exporters that compute in f32)
+            let f = f32::from_bits(u32::from_be_bytes([e.next(), e.next(), e.next(), e.next()]));
+            return (f as f64).to_be_bytes().to_vec();
         }
     }
     if *dt == FieldDataType::String && utf8_only {
@@ -225,6 +250,8 @@ fn pick<'a, T>(v: &'a [T], i: u8) -> &'a T {
 
 const SET_BODY_BUDGET: usize = 6000;
 const PKT_BUDGET: usize = 40000;
+/// all sets of one packet stay below this, whatever the budgets (65,535 minus headers)
+const HARD_SETS_LIMIT: usize = 65000;
 
 struct SetOut {
     bytes: Vec<u8>,
@@ -266,11 +293,17 @@ fn build_sets(
                 let mut w = W::default();
                 for (id, d) in g {
                     enc_template_record(&mut w, proto, *id, d);
-                    table.insert(*id, d.clone());
-                    out.n_records += 1;
                 }
                 let mut sw = W::default();
                 enc_set(&mut sw, template_set_id(proto, kind), &w.0, pad);
+                if out.bytes.len() + sw.0.len() > HARD_SETS_LIMIT {
+                    // would not fit into the datagram any more: not sent, not learned
+                    continue;
+                }
+                for (id, d) in g {
+                    table.insert(*id, d.clone());
+                    out.n_records += 1;
+                }
                 out.bytes.extend_from_slice(&sw.0);
                 out.n_sets += 1;
             }
@@ -282,7 +315,7 @@ fn build_sets(
         }
     };
     for sp in sets {
-        if out.bytes.len() > PKT_BUDGET {
+        if out.bytes.len() > o.pkt_budget {
             break;
         }
         match sp {
@@ -301,8 +334,12 @@ fn build_sets(
                             run.clear();
                         }
                     }
-                    // the same id twice in one set is legal but pointless; keep the later one
-                    run.retain(|(i, _)| *i != id);
+                    // the same id twice in one set is legal (the later record wins): kept for
+                    // V9; for IPFIX (whose multi-record template sets are a listed finding
+                    // anyway) only the later one is sent
+                    if proto != Proto::V9 {
+                        run.retain(|(i, _)| *i != id);
+                    }
                     run.push((id, d));
                 }
                 emit_tpl_run(&mut out, &run, (*pad % 4) as usize, table);
@@ -324,6 +361,9 @@ fn build_sets(
                     }
                     let d = defs[idx][0].clone();
                     emit_tpl_run(&mut out, &[(id, d)], 0, table);
+                    if !table.contains_key(&id) {
+                        continue;
+                    }
                 }
                 let def = if wh { defs[idx][0].clone() } else { table.get(&id).unwrap().clone() };
                 let min = def.min_record_len();
@@ -339,7 +379,7 @@ fn build_sets(
                     usize::MAX
                 };
                 for ent in recs.iter().take(max_recs) {
-                    if body.0.len() > SET_BODY_BUDGET {
+                    if body.0.len() > o.set_budget {
                         break;
                     }
                     let mut e = Ent::new(ent);
@@ -367,6 +407,9 @@ fn build_sets(
                     }
                     if o.varlen_monotone && rec.0.len() < last_len {
                         continue;
+                    }
+                    if out.bytes.len() + body.0.len() + rec.0.len() + 8 > HARD_SETS_LIMIT {
+                        break;
                     }
                     last_len = rec.0.len();
                     body.bytes(&rec.0);
@@ -714,7 +757,7 @@ pub fn pool(n_ids: std::ops::RangeInclusive<usize>, max_fields: usize, mixed_kin
             })
     };
     (
-        proptest::sample::subsequence(vec![256u16, 257, 258, 259, 300, 1024, 4096, 65535, 511, 260], n_ids),
+        proptest::sample::subsequence(vec![256u16, 257, 258, 259, 300, 1024, 4096, 65535, 511, 260, 4352, 33024], n_ids),
         vec(per_id(true), max_n..=max_n),
         vec(per_id(false), max_n..=max_n),
     )
@@ -819,6 +862,15 @@ pub struct StreamCfg {
 }
 
 impl StreamCfg {
+    /// datagram-sized shapes (used with `BuildOpts::big`): k = 0 thousands of records per set,
+    /// 1 thousands of fields per template, 2 hundreds of sets per packet
+    pub const fn datagram_sized(mix: Mix, k: usize) -> StreamCfg {
+        match k {
+            0 => StreamCfg { mix, ids: (1, 2), max_fields: 5, calls: (1, 2), pkts_per_call: (1, 1), max_sets: 2, max_recs: 3000, mixed_kinds: false },
+            1 => StreamCfg { mix, ids: (1, 2), max_fields: 4000, calls: (1, 2), pkts_per_call: (1, 1), max_sets: 3, max_recs: 3, mixed_kinds: false },
+            _ => StreamCfg { mix, ids: (1, 3), max_fields: 3, calls: (1, 2), pkts_per_call: (1, 1), max_sets: 1500, max_recs: 2, mixed_kinds: false },
+        }
+    }
     pub const fn small(mix: Mix) -> StreamCfg {
         StreamCfg {
             mix,
@@ -1077,6 +1129,8 @@ pub const HOSTILE_OPTS: BuildOpts = BuildOpts {
     count_by_flowsets: false,
     proto_named: false,
     withhold: None,
+    set_budget: SET_BODY_BUDGET,
+    pkt_budget: PKT_BUDGET,
 };
 
 pub fn build_hostile(h: &HostilePlan) -> Case {
@@ -1109,12 +1163,75 @@ pub fn hostile_case() -> BoxedStrategy<Case> {
 }
 
 /// conformant stream as a case (one parser, default allowed set)
+/// reference decode of every V9/IPFIX packet of a single-parser history (None = some packet
+/// is outside the conformant envelope)
+fn ref_trace(calls: &[Call]) -> Option<Vec<Option<crate::refdec::RefPkt>>> {
+    let mut cache = Cache::default();
+    let mut out = vec![];
+    for c in calls {
+        if c.parser != 0 {
+            return None;
+        }
+        for pk in &c.packets {
+            if pk.len() < 2 {
+                return None;
+            }
+            out.push(match be16(pk, 0) {
+                9 => Some(crate::refdec::dec_v9(pk, &mut cache).ok()?),
+                10 => Some(crate::refdec::dec_ipfix(pk, &mut cache).ok()?),
+                _ => None,
+            });
+        }
+    }
+    Some(out)
+}
+
+/// Retransmission: in one case out of six one packet is delivered again, byte-identically,
+/// as a call of its own right after its call or at a later point of the history (exporters
+/// re-send templates, networks duplicate datagrams). The copy is kept only if, by the
+/// reference decoder, it decodes exactly like its original and changes the decode of no other
+/// packet (a copy that re-installs an older definition, or whose data would now be read
+/// under a newer one, leaves the envelope the value generators were built for). Returns
+/// true when the history was changed.
+pub fn with_repeat(calls: &mut Vec<Call>, r: u32) -> bool {
+    if r % 6 != 0 || calls.is_empty() {
+        return false;
+    }
+    let ci = ((r >> 4) as usize) % calls.len();
+    if calls[ci].packets.is_empty() {
+        return false;
+    }
+    let pi = ((r >> 12) as usize) % calls[ci].packets.len();
+    let Some(before) = ref_trace(calls) else { return false };
+    let k_orig: usize = calls[..ci].iter().map(|c| c.packets.len()).sum::<usize>() + pi;
+    // right after its call (half of the time) or anywhere later
+    let cj = if (r >> 3) & 1 == 1 { ci + 1 } else { ci + 1 + ((r >> 20) as usize) % (calls.len() - ci) };
+    let k_copy: usize = calls[..cj].iter().map(|c| c.packets.len()).sum();
+    let pk = calls[ci].packets[pi].clone();
+    calls.insert(cj, Call { parser: calls[ci].parser, packets: vec![pk] });
+    let ok = match ref_trace(calls) {
+        Some(mut after) => {
+            let copy = after.remove(k_copy);
+            after == before && copy == before[k_orig]
+        }
+        None => false,
+    };
+    if !ok {
+        calls.remove(cj);
+    }
+    ok
+}
+
 pub fn conformant_case(cfg: StreamCfg, opts: BuildOpts) -> BoxedStrategy<Case> {
-    stream(cfg)
-        .prop_map(move |p| {
-            let b = build(&p, &opts);
+    (stream(cfg), any::<u32>())
+        .prop_map(move |(p, rep)| {
+            let mut b = build(&p, &opts);
             let mut params = BTreeMap::new();
-            params.insert("built_data_records".to_string(), b.data_records as i64);
+            if with_repeat(&mut b.calls, rep) {
+                params.insert("retransmission".to_string(), 1);
+            } else {
+                params.insert("built_data_records".to_string(), b.data_records as i64);
+            }
             Case {
                 allowed: vec![crate::engine::DEFAULT_ALLOWED.to_vec()],
                 calls: b.calls,
@@ -1154,8 +1271,8 @@ pub fn make_lossless(proto: Proto, d: &mut Def) {
 }
 
 pub fn conformant_case_lossless(cfg: StreamCfg, opts: BuildOpts) -> BoxedStrategy<Case> {
-    stream(cfg)
-        .prop_map(move |mut p| {
+    (stream(cfg), any::<u32>())
+        .prop_map(move |(mut p, rep)| {
             for alts in p.pool.v9.iter_mut() {
                 for d in alts.iter_mut() {
                     make_lossless(Proto::V9, d);
@@ -1167,9 +1284,13 @@ pub fn conformant_case_lossless(cfg: StreamCfg, opts: BuildOpts) -> BoxedStrateg
                 }
             }
             let o = BuildOpts { proto_named: true, ..opts };
-            let b = build(&p, &o);
+            let mut b = build(&p, &o);
             let mut params = BTreeMap::new();
-            params.insert("built_data_records".to_string(), b.data_records as i64);
+            if with_repeat(&mut b.calls, rep) {
+                params.insert("retransmission".to_string(), 1);
+            } else {
+                params.insert("built_data_records".to_string(), b.data_records as i64);
+            }
             Case {
                 allowed: vec![crate::engine::DEFAULT_ALLOWED.to_vec()],
                 calls: b.calls,
